@@ -230,12 +230,35 @@ Proof.
     | apply N.eqb_eq in H; lia ..].
 Qed.
 
+(** sweeps are stated as "the list of failing elements is empty", so that a
+    broken sweep names the offenders in the error message *)
+Lemma filter_negb_nil {A} (f : A -> bool) l :
+  filter (fun x => negb (f x)) l = [] -> forall x, In x l -> f x = true.
+Proof.
+  induction l as [|a l IH]; cbn [filter]; intros H x []; subst.
+  - destruct (f x); [reflexivity|discriminate].
+  - destruct (f a); cbn [negb] in H; [auto|discriminate].
+Qed.
+
+Lemma offenders_nil {A} (f : A -> bool) l : filter (fun x => negb (f x)) l = [] -> forallb f l = true.
+Proof. intros H. apply forallb_forall. exact (filter_negb_nil f l H). Qed.
+
 (** ** the table obligation: every replacement string is ASCII (finite sweep
     over both regenerated tables) *)
 Definition table_ascii (xml : bool) : bool := forallb (fun kv => is_ascii_str (snd kv)) (table_of xml).
 
+(** the offending entries (none) *)
+Lemma non_ascii_entries_defaults : filter (fun kv => negb (is_ascii_str (snd kv))) (table_of false) = [].
+Proof. vm_compute. reflexivity. Qed.
+Lemma non_ascii_entries_xml : filter (fun kv => negb (is_ascii_str (snd kv))) (table_of true) = [].
+Proof. vm_compute. reflexivity. Qed.
+
 Lemma tables_ascii : table_ascii false = true /\ table_ascii true = true.
-Proof. split; vm_compute; reflexivity. Qed.
+Proof.
+  split.
+  - exact (offenders_nil (fun kv => is_ascii_str (snd kv)) (table_of false) non_ascii_entries_defaults).
+  - exact (offenders_nil (fun kv => is_ascii_str (snd kv)) (table_of true) non_ascii_entries_xml).
+Qed.
 
 Lemma table_entry_ascii xml c r : map_lookup (map_of xml) c = Some r -> is_ascii_str r = true.
 Proof.
